@@ -17,7 +17,8 @@ import (
 
 // Node is one option value in the option tree.
 type Node struct {
-	Kind string `json:"kind"`           // ics | empty | other | opts | sideopts
+	Kind string `json:"kind"`           // ics | empty | other | opts | sideopts | ref
+	Ref  int    `json:"ref,omitempty"`  // ref: the (Ref mod k)-th WithInterceptors value built so far is used here again
 	Ics  []int  `json:"ics,omitempty"`  // ics: interceptor ids, -1 = nil entry
 	Kids []Node `json:"kids,omitempty"` // opts (WithOptions) / sideopts (WithClientOptions or WithHandlerOptions)
 }
@@ -51,6 +52,7 @@ type evlog struct {
 	// that keeps all its interceptors in one slice would pass them
 	shared bool
 	arena  []connect.Interceptor
+	built  []connect.Option // every WithInterceptors value built so far, in traversal order
 }
 
 func (l *evlog) add(s string) {
@@ -147,7 +149,14 @@ func icList(ids []int, log *evlog) []connect.Interceptor {
 func asOption(n Node, log *evlog) connect.Option {
 	switch n.Kind {
 	case "ics":
-		return connect.WithInterceptors(icList(n.Ics, log)...)
+		o := connect.WithInterceptors(icList(n.Ics, log)...)
+		log.built = append(log.built, o)
+		return o
+	case "ref":
+		if len(log.built) == 0 {
+			return connect.WithInterceptors()
+		}
+		return log.built[n.Ref%len(log.built)]
 	case "empty":
 		return connect.WithInterceptors()
 	case "other":
@@ -187,6 +196,7 @@ func handlerOpts(nodes []Node, log *evlog) []connect.HandlerOption {
 }
 
 func flatten(nodes []Node) (ids []int, groups, nils, depth int) {
+	var seen [][]int // ids of every ics node met so far, in traversal order
 	var walk func(ns []Node, d int)
 	walk = func(ns []Node, d int) {
 		if d > depth {
@@ -196,12 +206,20 @@ func flatten(nodes []Node) (ids []int, groups, nils, depth int) {
 			switch n.Kind {
 			case "ics":
 				groups++
+				var own []int
 				for _, id := range n.Ics {
 					if id < 0 {
 						nils++
 					} else {
 						ids = append(ids, id)
+						own = append(own, id)
 					}
+				}
+				seen = append(seen, own)
+			case "ref":
+				if len(seen) > 0 {
+					groups++
+					ids = append(ids, seen[n.Ref%len(seen)]...)
 				}
 			case "opts", "sideopts":
 				walk(n.Kids, d+1)
@@ -277,8 +295,11 @@ func check(tt *testing.T, c Case) (pbt.Info, error) {
 	if c.Again >= 1 && c.Again <= len(c.Tree) {
 		again = c.Again
 		info.Label("option-value-listed-twice")
-		more, _, _, _ := flatten(c.Tree[again-1 : again])
-		ids = append(ids, more...)
+		// (the ids the again-th top-level option contributes, refs resolved
+		// in the context of the whole tree)
+		before, _, _, _ := flatten(c.Tree[:again-1])
+		upto, _, _, _ := flatten(c.Tree[:again])
+		ids = append(ids, upto[len(before):]...)
 	}
 	if c.Side == "client" {
 		base := len(copts)
@@ -389,7 +410,7 @@ func check(tt *testing.T, c Case) (pbt.Info, error) {
 }
 
 func nodeGen(t *rapid.T, next *int, depth int, optionOnly bool) Node {
-	kinds := []string{"ics", "ics", "ics", "empty", "other"}
+	kinds := []string{"ics", "ics", "ics", "empty", "other", "ref"}
 	if depth < 3 {
 		kinds = append(kinds, "opts")
 		if !optionOnly {
@@ -408,6 +429,8 @@ func nodeGen(t *rapid.T, next *int, depth int, optionOnly bool) Node {
 				*next++
 			}
 		}
+	case "ref":
+		n.Ref = rapid.IntRange(0, 5).Draw(t, "ref")
 	case "opts", "sideopts":
 		k := rapid.IntRange(0, 3).Draw(t, "nkids")
 		for i := 0; i < k; i++ {
@@ -441,7 +464,7 @@ func gen(t *rapid.T) Case {
 
 var spec = pbt.Spec[Case]{
 	Prop: "C16", Name: "trees", Gen: gen, Check: check,
-	Rule: "rapid-generated option trees: up to 6 labelled interceptors (nil entries anywhere) spread over WithInterceptors groups nested up to depth 3 inside WithOptions / WithClientOptions / WithHandlerOptions, interleaved with empty WithInterceptors() and unrelated options; the groups are either separate slices or sub-slices list[a:b] of one backing array with spare capacity; the same option values optionally applied to 1–2 other clients/handlers first (as generated constructors do), the whole list or only a suffix of it (so the shared values follow fewer interceptors there); optionally one option value listed a second time; × {client, handler} × 4 RPC kinds × 3 protocols; oracle: reference model = flat concatenation minus nils, checked on an event log (request/Send order 1..m, response/Receive completion order m..1, each interceptor wraps once); non-trivial = ≥2 effective interceptors AND (≥2 groups OR nesting OR a nil entry)",
+	Rule: "rapid-generated option trees: up to 6 labelled interceptors (nil entries anywhere) spread over WithInterceptors groups nested up to depth 3 inside WithOptions / WithClientOptions / WithHandlerOptions, interleaved with empty WithInterceptors() and unrelated options; the groups are either separate slices or sub-slices list[a:b] of one backing array with spare capacity; the same option values optionally applied to 1–2 other clients/handlers first (as generated constructors do), the whole list or only a suffix of it (so the shared values follow fewer interceptors there); optionally one option value listed a second time, and `ref` nodes that use an earlier WithInterceptors value again at another place of the tree; × {client, handler} × 4 RPC kinds × 3 protocols; oracle: reference model = flat concatenation minus nils, checked on an event log (request/Send order 1..m, response/Receive completion order m..1, each interceptor wraps once); non-trivial = ≥2 effective interceptors AND (≥2 groups OR nesting OR a nil entry)",
 }
 
 func TestTrees(t *testing.T) { pbt.Run(t, spec) }
